@@ -67,6 +67,26 @@ pub fn run(ctx: &Ctx) -> i32 {
                     Err(p) => if p.loc.contains("queries.rs") { acc.inc("panics_counted_under_C16") } else { acc.viol(format!("C18|expression|panic|{}", p.loc), p.msg.clone(), cid(lbl), json!({})) },
                 }
             }
+            // accessors of the parsed value agree with what was put in
+            if let Ok(Ok(parsed)) = catch(|| Expression::try_from(env.clone())) {
+                acc.inc("accessor_checks");
+                let okf = catch(|| {
+                    let mut bad: Vec<&'static str> = vec![];
+                    if parsed.function() != f { bad.push("function()") }
+                    for (pi2, _) in pl.iter() {
+                        let want: Vec<[u8; 32]> = { let mut w: Vec<[u8; 32]> = pl.iter().filter(|(q, _)| params[*q] == params[*pi2]).map(|(_, v)| bind::dg(&values[*v])).collect(); w.sort(); w.dedup(); w };
+                        let mut got: Vec<[u8; 32]> = parsed.objects_for_parameter(params[*pi2].clone()).iter().map(bind::dg).collect(); got.sort();
+                        if got != want { bad.push("objects_for_parameter") }
+                        match parsed.object_for_parameter(params[*pi2].clone()) { Ok(o) => if want.len() != 1 || bind::dg(&o) != want[0] { bad.push("object_for_parameter") }, Err(_) => if want.len() == 1 { bad.push("object_for_parameter:refused") } }
+                    }
+                    if parsed.objects_for_parameter(Parameter::from("never-a-parameter")).len() != 0 { bad.push("objects_for_parameter:absent") }
+                    if parsed.clone().with_optional_parameter(Parameter::from("opt"), None::<Envelope>) != parsed { bad.push("with_optional_parameter(None)") }
+                    let _ = format!("{}", parsed);
+                    if Envelope::from(parsed.to_expression()).to_cbor_data() != env.to_cbor_data() { bad.push("to_expression") }
+                    bad
+                });
+                match okf { Ok(bad) => for x in bad { acc.viol(format!("C18|expression|accessor|{x}"), "an accessor of the parsed expression disagrees with what was put in", cid(&format!("accessor-{x}")), json!({"envelope": crate::report::ff(&env)})) }, Err(p) => if p.loc.contains("queries.rs") { acc.inc("panics_counted_under_C16") } else { acc.viol(format!("C18|expression|accessor|panic|{}", p.site), p.msg.clone(), cid("accessor"), json!({})) } }
+            }
             for (gi, g) in functions.iter().enumerate() {
                 acc.inc("expected_function_checks");
                 match catch(|| Expression::try_from((env.clone(), Some(g))).is_ok()) { Ok(ok) => if ok != (g == f) { acc.viol(format!("C18|expression|expected-function|{}", if ok { "accepts-other" } else { "rejects-own" }), "TryFrom with an expected function gives the wrong verdict", cid(&format!("expect-fn{gi}")), json!({})) }, Err(_) => acc.inc("panics_counted_under_C16") }
@@ -82,6 +102,16 @@ pub fn run(ctx: &Ctx) -> i32 {
                         acc.inc("roundtrips");
                         match catch(|| e2.clone().map(Request::try_from)) { Ok(Some(Ok(b))) => if b != rq { acc.viol("C18|request|roundtrip|not-equal", "parsed request differs", cid2(lbl), json!({"envelope": crate::report::ff(&renv)})) }, Ok(Some(Err(er))) => acc.viol("C18|request|roundtrip|rejected", format!("{er}"), cid2(lbl), json!({"envelope": crate::report::ff(&renv)})), Ok(None) => acc.viol("C18|request|roundtrip|not-decodable", "", cid2(lbl), json!({})), Err(p) => acc.viol(format!("C18|request|panic|{}", p.loc), p.msg.clone(), cid2(lbl), json!({})) }
                     }
+                    if let Ok(Ok(pr)) = catch(|| Request::try_from(renv.clone())) {
+                        acc.inc("accessor_checks");
+                        let bad = catch(|| { let mut bad: Vec<&'static str> = vec![];
+                            if pr.id() != id { bad.push("id()") } if pr.note() != note { bad.push("note()") } if pr.date() != d.as_ref() { bad.push("date()") }
+                            if pr.body() != &ex { bad.push("body()") } if pr.function() != f { bad.push("function()") }
+                            if let Some((p0, v0)) = pl.first() { if pl.len() == 1 { match pr.object_for_parameter(params[*p0].clone()) { Ok(o) => if bind::dg(&o) != bind::dg(&values[*v0]) { bad.push("object_for_parameter") }, Err(_) => bad.push("object_for_parameter:refused") } } }
+                            let _ = format!("{}", pr); let _ = pr.summary();
+                            bad });
+                        match bad { Ok(b) => for x in b { acc.viol(format!("C18|request|accessor|{x}"), "an accessor of the parsed request disagrees with what was put in", cid2(&format!("accessor-{x}")), json!({"envelope": crate::report::ff(&renv)})) }, Err(p) => if p.loc.contains("queries.rs") { acc.inc("panics_counted_under_C16") } else { acc.viol(format!("C18|request|accessor|panic|{}", p.site), p.msg.clone(), cid2("accessor"), json!({})) } }
+                    }
                     let subj_ok = matches!(bind::observe(&renv.subject()), bind::O::Leaf(_, ref b) if b.starts_with(&[0xd9, 0x9c, 0x44]));
                     if !subj_ok || count(&renv, known_values::BODY) != 1 || count(&renv, known_values::NOTE) != (!note.is_empty()) as usize || count(&renv, known_values::DATE) != d.is_some() as usize { acc.viol("C18|request|shape", "request envelope does not have the documented shape (tagged ARID subject, one 'body', 'note' only when non-empty, 'date' only when present)", cid2("shape"), json!({"got": crate::report::ff(&renv)})) }
                     // wrong expected function
@@ -93,6 +123,15 @@ pub fn run(ctx: &Ctx) -> i32 {
                     for (lbl, e2) in [("direct", Some(eenv.clone())), ("serialized", via(&eenv))] {
                         acc.inc("roundtrips");
                         match catch(|| e2.clone().map(Event::<Envelope>::try_from)) { Ok(Some(Ok(b))) => if b != ev { acc.viol("C18|event|roundtrip|not-equal", "parsed event differs", cid2(lbl), json!({"envelope": crate::report::ff(&eenv)})) }, Ok(Some(Err(er))) => acc.viol("C18|event|roundtrip|rejected", format!("{er}"), cid2(lbl), json!({"envelope": crate::report::ff(&eenv)})), Ok(None) => acc.viol("C18|event|roundtrip|not-decodable", "", cid2(lbl), json!({})), Err(p) => acc.viol(format!("C18|event|panic|{}", p.loc), p.msg.clone(), cid2(lbl), json!({})) }
+                    }
+                    if let Ok(Ok(pe)) = catch(|| Event::<Envelope>::try_from(eenv.clone())) {
+                        acc.inc("accessor_checks");
+                        let bad = catch(|| { let mut bad: Vec<&'static str> = vec![];
+                            if pe.id() != id { bad.push("id()") } if pe.note() != note { bad.push("note()") } if pe.date() != d.as_ref() { bad.push("date()") }
+                            if !pe.content().is_identical_to(&env) { bad.push("content()") }
+                            let _ = format!("{}", pe); let _ = pe.summary();
+                            bad });
+                        match bad { Ok(b) => for x in b { acc.viol(format!("C18|event|accessor|{x}"), "an accessor of the parsed event disagrees with what was put in", cid2(&format!("accessor-{x}")), json!({"envelope": crate::report::ff(&eenv)})) }, Err(p) => acc.viol(format!("C18|event|accessor|panic|{}", p.site), p.msg.clone(), cid2("accessor"), json!({})) }
                     }
                     let esub = matches!(bind::observe(&eenv.subject()), bind::O::Leaf(_, ref b) if b.starts_with(&[0xd9, 0x9c, 0x5a]));
                     if !esub || count(&eenv, known_values::CONTENT) != 1 || count(&eenv, known_values::NOTE) != (!note.is_empty()) as usize || count(&eenv, known_values::DATE) != d.is_some() as usize { acc.viol("C18|event|shape", "event envelope does not have the documented shape", cid2("shape"), json!({"got": crate::report::ff(&eenv)})) }
@@ -130,6 +169,18 @@ pub fn run(ctx: &Ctx) -> i32 {
             acc.inc("roundtrips");
             match catch(|| e2.clone().map(Response::try_from)) { Ok(Some(Ok(b))) => if b != *r { acc.viol("C18|response|roundtrip|not-equal", "parsed response differs", format!("resp{ri}/{lbl}"), json!({"envelope": crate::report::ff(&env)})) }, Ok(Some(Err(er))) => acc.viol("C18|response|roundtrip|rejected", format!("{er}"), format!("resp{ri}/{lbl}"), json!({"envelope": crate::report::ff(&env)})), Ok(None) => acc.viol("C18|response|roundtrip|not-decodable", "", format!("resp{ri}/{lbl}"), json!({})), Err(p) => acc.viol(format!("C18|response|panic|{}", p.loc), p.msg.clone(), format!("resp{ri}/{lbl}"), json!({})) }
         }
+        if let Ok(Ok(pr)) = catch(|| Response::try_from(env.clone())) {
+            acc.inc("accessor_checks");
+            let bad = catch(|| { let mut bad: Vec<&'static str> = vec![];
+                if pr.is_ok() != r.is_ok() || pr.is_err() != r.is_err() || pr.is_ok() == pr.is_err() { bad.push("is_ok/is_err") }
+                if pr.id() != r.id() { bad.push("id()") }
+                if pr.is_ok() { if pr.result().ok().map(bind::dg) != r.result().ok().map(bind::dg) || pr.error().is_ok() || pr.expect_id() != id || pr.ok().is_none() || pr.err().is_some() { bad.push("result()/error()") } }
+                else { if pr.error().ok().map(bind::dg) != r.error().ok().map(bind::dg) || pr.result().is_ok() || pr.err().is_none() || pr.ok().is_some() { bad.push("error()/result()") } }
+                let _ = pr.extract_result::<String>(); let _ = pr.extract_error::<String>();
+                let _ = format!("{}", pr); let _ = pr.summary();
+                bad });
+            match bad { Ok(b) => for x in b { acc.viol(format!("C18|response|accessor|{x}"), "an accessor of the parsed response disagrees with the original", format!("resp{ri}/accessor-{x}"), json!({"envelope": crate::report::ff(&env)})) }, Err(p) => acc.viol(format!("C18|response|accessor|panic|{}", p.site), p.msg.clone(), format!("resp{ri}/accessor"), json!({})) }
+        }
         let is_resp_tag = matches!(bind::observe(&env.subject()), bind::O::Leaf(_, ref b) if b.starts_with(&[0xd9, 0x9c, 0x45]));
         if !is_resp_tag || count(&env, known_values::RESULT) + count(&env, known_values::ERROR) != 1 { acc.viol("C18|response|shape", "response envelope does not have the documented shape", format!("resp{ri}/shape"), json!({"got": crate::report::ff(&env)})) }
         acc.nontrivial(&("r", ri));
@@ -158,7 +209,7 @@ pub fn run(ctx: &Ctx) -> i32 {
     }
     acc.sample(json!({"function": "add", "parameters": [["lhs", "1"], ["x", "\"n\" [\"a\": \"b\"]"]], "notes": notes, "dates": dates.len()}));
     acc.sample(json!({"response_variants": responses.len(), "mutation_alphabet": muts.iter().map(|m| m.0).collect::<Vec<_>>(), "mutation_depth": depth}));
-    let evals = acc.get("roundtrips") + acc.get("expected_function_checks") + acc.get("malformed_variants");
+    let evals = acc.get("roundtrips") + acc.get("expected_function_checks") + acc.get("malformed_variants") + acc.get("accessor_checks");
     let cov = json!({"evaluations": evals,
         "rule": "functions x parameter lists (with repetition) x parameter values of every envelope kind x notes x dates x response variants: value -> envelope -> parse (directly and through serialisation) == value, documented shape on the observed envelope, expected-function check against every function; malformed variants breadth-first over the mutation alphabet; distinct = (function, parameter list) and response variants",
         "exhaustive": true, "bounds": {"parameter_list_length": maxp, "mutation_depth": depth, "functions": functions.len(), "values": values.len()}});
